@@ -36,7 +36,7 @@ structure FormatFacts (o : FormatOpts) (d d' : Dev) (boot : FBoot) (ft : FatType
   writes : d'.writesOf = Lt ++ (Lr ++ (Lf ++ (Lz ++ (Lk ++ (Lb ++ d.writesOf)))))
   pos : d'.pos = 0
   regions : FmtRegions o boot ft Lb Lk Lz Lf Lr Lt
-  log : ∃ d0, d0.log = d.log ∧ d0.img.size = d.img.size ∧ FormatLog o boot ft d0 d' Lb Lk Lz Lf Lr Lt
+  log : ∃ d0, d0.log = d.log ∧ d0.img.size = d.img.size ∧ ImgRel d d0 ∧ FormatLog o boot ft d0 d' Lb Lk Lz Lf Lr Lt
   bootT : TileAt 0 (bootTile boot 0) Lb
   backupT : ft = .fat32 → TileAt (6 * boot.bpb.bps) (bootTile boot (6 * boot.bpb.bps)) Lk
   fatZeroT : TileAt (boot.bpb.reserved * boot.bpb.bps)
@@ -46,15 +46,15 @@ structure FormatFacts (o : FormatOpts) (d d' : Dev) (boot : FBoot) (ft : FatType
 
 theorem FormatRun.facts {o : FormatOpts} {d d' : Dev} (h : FormatRun o d d') :
     ∃ boot ft Lb Lk Lz Lf Lr Lt, FormatFacts o d d' boot ft Lb Lk Lz Lf Lr Lt := by
-  obtain ⟨boot, ft, hfc, Lb, Lk, Lz, Lf, Lr, Lt, d0, hl0, hs0, hlog⟩ := formatVolume_trace o d d' h.ok
+  obtain ⟨boot, ft, hfc, Lb, Lk, Lz, Lf, Lr, Lt, d0, hl0, hs0, himg0, hlog⟩ := formatVolume_trace o d d' h.ok
   have hg := fmtGeom_of_ok h.acc h.tot hfc
   have hlen := serialize_len_of_ok h.acc h.rng h.tot hfc
   have hbps : boot.bpb.bps = o.bps := by
     obtain ⟨c, _, _, _, _, _, _, _, hboot, _⟩ := formatChecked_ok_layout h.acc h.tot hfc
     rw [hboot]; rfl
   have hreg := hlog.regions hg hlen (by rw [hbps, hs0]; exact h.size)
-  obtain ⟨dK, _, _, hfr⟩ := hlog.rest
-  refine ⟨boot, ft, Lb, Lk, Lz, Lf, Lr, Lt, hfc, hg, hlen, ?_, hlog.pos, hreg, ⟨d0, hl0, hs0, hlog⟩, hlog.bootT, ?_,
+  obtain ⟨dK, _, _, _, hfr⟩ := hlog.rest
+  refine ⟨boot, ft, Lb, Lk, Lz, Lf, Lr, Lt, hfc, hg, hlen, ?_, hlog.pos, hreg, ⟨d0, hl0, hs0, himg0, hlog⟩, hlog.bootT, ?_,
     hfr.fatZero, hfr.rootZero⟩
   · have := hlog.seg
     unfold Seg at this
